@@ -60,7 +60,7 @@ def build_harness():
     log("[build] harness rebuilt from /repo working tree in %.1fs" % (time.time() - t))
 
 
-def harness(args, timeout=1800, stdin=None, env=None):
+def harness(args, timeout=1800, stdin=None, env=None, cwd=None):
     """Run a harness sub-command; returns the parsed JSON summary printed on its last stdout line."""
     build_harness()
     e = dict(os.environ)
@@ -68,7 +68,7 @@ def harness(args, timeout=1800, stdin=None, env=None):
         e.update(env)
     try:
         p = subprocess.run([HARNESS] + [str(a) for a in args], stdout=subprocess.PIPE, stderr=subprocess.PIPE,
-                           text=True, timeout=timeout, input=stdin, env=e)
+                           text=True, timeout=timeout, input=stdin, env=e, cwd=cwd)
     except subprocess.TimeoutExpired:
         raise ToolError("harness %s timed out after %ss" % (args[0], timeout))
     if p.returncode != 0:
